@@ -60,7 +60,9 @@ LEVEL_TEXT = (
     "one of its listeners is being opened nor issue PASV/EPSV while one is being opened. The full property is REFUTED on the "
     "current source: C11_pool_conserved_refuted_cancel1/2 (F5) and C11_pool_conserved_refuted_overlap (pipelined PASV PASV), both "
     "reproduced on the real code (simnet and real loopback TCP). C11_hierarchy_needed shows the extracted class hierarchy is "
-    "load-bearing."
+    "load-bearing. For the repaired shape of _start_passive_server (docs/fixes/C11-port-giveback+overlap.diff; recognised by the "
+    "translator, flags justified by C11_ladder_obligation) the FULL statement is proved for every history, cancellation at any "
+    "suspension point and overlapping PASV/EPSV included: C11_pool_conserved_repaired, C11_quiescent_pool_repaired."
 )
 LEVEL_NOTE = (
     "Trusted: Coq kernel; tools/py2v; extraction cross-checked with vm_compute; simnet + harness. Modelled, not verified: "
